@@ -722,4 +722,154 @@ Proof.
     rewrite Hs0 in Ht0. cbn [ofopt bind] in Ht0. inversion Ht0; subst t0.
     pose proof (leaves1_old _ _ Hs0) as Hs1. rewrite Hlf1 in Hs1. inversion Hs1; subst s0. exact Hlt1.
 Qed.
+
+(* ---- the retraction: which port an invented signal bit stands for ---- *)
+Definition owner_node (p : path) (s : name) (k : Z) : option node :=
+  match find (fun e : N * alloc * name => String.eqb (snd e) s) table with
+  | Some e =>
+      match a_kind (snd (fst e)) with
+      | AGroup _ o => Some (NPort p (fst o) 0 (snd o) k)
+      | ANc i port =>
+          match find_inst (m_insts m) i with
+          | Some x => match port_width d x port with
+                      | Ok w => Some (if single x then NPort p i 0 port k else NPort p i (k / w) port (k mod w))
+                      | Error _ => None
+                      end
+          | None => None
+          end
+      end
+  | None => None
+  end.
+
+Lemma find_by_name id a nm : In (id, a, nm) table -> find (fun e : N * alloc * name => String.eqb (snd e) nm) table = Some (id, a, nm).
+Proof.
+  intros Hin. pose proof tbl_names_NoDup as Hnd. clear - Hin Hnd. induction table as [|e l IH]; [destruct Hin|]. cbn [find map] in *.
+  inversion Hnd as [|? ? Hn Hnd']; subst. destruct Hin as [->|Hin]; [cbn [snd]; rewrite String.eqb_refl; reflexivity|].
+  destruct (String.eqb (snd e) nm) eqn:E; [|apply IH; assumption]. apply String.eqb_eq in E. exfalso. apply Hn. rewrite E.
+  apply (in_map (fun e : N * alloc * name => snd e)) in Hin. exact Hin.
+Qed.
+
+Lemma fresh_not_sig id a nm : In (id, a, nm) table -> sig_width m nm = None.
+Proof.
+  intros H. pose proof (tbl_name_fresh _ _ _ H) as Hf. unfold namespace in Hf. unfold sig_width.
+  rewrite assoc_notin_None by (intros Hin; apply Hf; apply in_or_app; left; exact Hin).
+  apply assoc_notin_None. intros Hin. apply Hf. apply in_or_app. right. apply in_or_app. left. exact Hin.
+Qed.
+
+(* new connections join only what the old ones joined *)
+Lemma pr_bwd p x x1 e port k w : In x (m_insts m) -> rewrite_inst m keys table x = Ok x1 -> elem_ok x e = true ->
+  port_width d x port = Ok w -> 0 <= k < w ->
+  exists s1 j1, local_tgt d m1 x1 e port k = Ok (LtSig s1 j1) /\
+    ( local_tgt d m x e port k = Ok (LtSig s1 j1)
+    \/ (sig_width m s1 = None /\ owner_node p s1 j1 = Some (NPort p (i_name x) e port k))
+    \/ exists q jj wq, local_tgt d m x e port k = Ok (LtPort (fst q) (snd q) jj) /\ In q keys /\ key_width d m q = Ok wq /\ 0 <= jj < wq /\
+          ( (exists r xr, In r keys /\ conn key (nxt m) q r /\ find_inst (m_insts m) (fst r) = Some xr /\
+                          local_tgt d m xr 0 (snd r) jj = Ok (LtSig s1 j1))
+          \/ (exists o, sig_width m s1 = None /\ j1 = jj /\ In o keys /\ conn key (nxt m) q o /\
+                         owner_node p s1 jj = Some (NPort p (fst o) 0 (snd o) jj)) ) ).
+Proof.
+  intros Hx Hr He Hw Hk. destruct (rewrite_inst_inv x x1 Hr) as [Hn1 [Hnn1 [Ho1 _]]].
+  assert (port_width d x1 port = Ok w) as Hw1 by (unfold port_width in *; rewrite Ho1; exact Hw).
+  assert (elem_ok x1 e = true) as He1 by (unfold elem_ok in *; rewrite Hnn1; exact He).
+  destruct (pr_port_facts x port w Hx Hw) as [ports [Hp Hpw']].
+  pose proof (Hpw x ports (port, w) Hx Hp (assoc_In _ _ _ Hpw')) as Hwpos. cbn [snd] in Hwpos.
+  destruct (assoc port (i_conns x)) as [cx|] eqn:Ea.
+  - pose proof (assoc_In _ _ _ Ea) as Hc.
+    destruct (pr_lookup_conn x x1 port cx Hx Hr Ea) as [e1 [He1a Hci]].
+    destruct (pr_conn_ok x (port, cx) e1 ports w Hx Hc Hp Hpw' Hci) as [cw [_ [Hl1 [Hcw1 [Hcase1 Hkq]]]]].
+    rewrite <- Hnn1 in Hcase1.
+    destruct (m1_local x1 e port k w e1 He1a Hw1 Hk He1 Hl1 cw Hcw1 Hcase1) as [bits1 [id1 [j1 [s1 [Hb1 [Hlen1 [Hpk1 [Hlf1 Hlt1]]]]]]]].
+    exists s1, j1. split; [exact Hlt1|].
+    destruct Hci as [q g Hrq Hq Hqk Hg Hgk Cg Hres Hri|site id a nm w2 Hrq Hnq He1e Ht Hka Hw2 Hwd|Hrq Hnq He1e].
+    + (* a reference *)
+      right. right. cbn [snd] in Hrq. destruct (as_ref_shape _ _ _ Hrq) as [idr [wl [-> Hlr]]].
+      specialize (Hkq q Hrq). cbn [snd] in Hkq.
+      assert (next m (i_name x, port) = Some q) as Hnx by (unfold next, pconn; cbn [fst snd]; rewrite (pr_find x Hx), Ea; exact Hrq).
+      destruct (next_wf d km m keys Hwm Hfrag Hkeys (i_name x, port) q x (pr_find x Hx) Hnx) as [w0 [wl' [Hw0 [_ [Hkw [Hwl1 [Hcase [idr' [Ea' _]]]]]]]]].
+      cbn [snd] in Hw0, Ea'. rewrite Ea in Ea'. inversion Ea'; subst idr' wl'. rewrite Hw in Hw0. inversion Hw0; subst w0.
+      assert (cw = wl) as -> by congruence. clear Hkq.
+      assert (xbits (XSig idr wl) = Ok (sig_bits idr wl)) as Hb0 by (cbn [xbits]; destruct (wl <? 1) eqn:E; [lia|reflexivity]).
+      destruct (conn_bit_some d x e port k _ _ w Ea Hb0 Hw Hk He) as [Hcb0 Hidx0]; [rewrite sig_bits_len by lia; exact Hcase|].
+      rewrite sig_bits_len in Hcb0, Hidx0 by lia. set (jj := conn_index x wl w e k) in *.
+      assert (pick (sig_bits idr wl) jj = Ok (idr, jj)) as Hpk0.
+      { unfold sig_bits. rewrite pick_map. destruct (pick_ok (iota (Z.to_nat wl) 0 1) jj) as [y [Hy Hny]]; [unfold zlen; rewrite iota_length; lia|].
+        rewrite Hy. rewrite iota_nth in Hny by lia. inversion Hny; subst y. f_equal. f_equal. lia. }
+      assert (local_tgt d m x e port k = Ok (LtPort (fst q) (snd q) jj)) as Ht0.
+      { unfold local_tgt. rewrite Hcb0, Hpk0. cbn [bind]. rewrite Hlr. reflexivity. }
+      assert (conn_index x1 wl w e k = jj) as Ej1 by reflexivity. rewrite Ej1 in Hpk1.
+      exists q, jj, wl. split; [exact Ht0|]. split; [exact Hqk|]. split; [exact Hkw|]. split; [exact Hidx0|].
+      destruct Hri as [Hsrc Hre Hne|id a nm o He1e Ht Hka Hok Co Hkw2].
+      * (* the declared connection of the group's root *)
+        left. destruct (attr_spec d km m keys Hwm Hfrag Hkeys g Hgk) as [Hrk Cr]. set (r := attr m keys g) in *.
+        pose proof Hrk as Hrk2. apply (keys_In d km m keys Hwm Hkeys) in Hrk2. destruct Hrk2 as [xr [wr [Hfr [Hsr Hwr]]]].
+        destruct (find_inst_In _ _ _ Hfr) as [Hxr _]. unfold pconn in Hsrc. rewrite Hfr in Hsrc.
+        exists r, xr. split; [exact Hrk|]. split; [eapply c_trans; [apply c_sym; exact Cg|exact Cr]|]. split; [exact Hfr|].
+        assert (key_width d m r = Ok wl) as Hkr.
+        { rewrite <- Hkw. symmetry. apply (conn_width d km m keys Hwm Hfrag Hkeys q r Hqk Hrk). eapply c_trans; [apply c_sym; exact Cg|exact Cr]. }
+        assert (wr = wl) as -> by (unfold key_width in Hkr; rewrite Hfr in Hkr; cbn [ofopt bind] in Hkr; congruence).
+        assert (elem_ok xr 0 = true) as Her by (unfold elem_ok; unfold single in Hsr; rewrite Hsr; reflexivity).
+        pose proof (pick_In _ _ _ Hpk1) as Hin. destruct (xbits_inside _ _ Hb1 _ _ Hin) as [wl2 [Hlv _]]. rewrite leaves_sx_leaves in Hlv.
+        pose proof (pr_leaves_sig xr (snd r, e1) Hxr (assoc_In _ _ _ Hsrc) Hre Hne) as Hls. rewrite Forall_forall in Hls.
+        destruct (Hls _ Hlv) as [s0 [Hs0 _]]. cbn [fst] in Hs0. pose proof (leaves1_old _ _ Hs0) as Hs1. rewrite Hlf1 in Hs1. inversion Hs1; subst s0.
+        apply (local_tgt_intro d m xr 0 (snd r) jj wl e1 bits1 id1 j1 s1 Hsrc Hb1 Hwr ltac:(lia) Her); [left; exact Hlen1| |exact Hs0].
+        unfold conn_index. rewrite Hlen1, Z.eqb_refl. exact Hpk1.
+      * (* the implicit signal of the group *)
+        right. subst e1. cbn [xbits] in Hb1. destruct (a_width a <? 1) eqn:E; [discriminate|]. inversion Hb1; subst bits1.
+        assert (a_width a = wl) as Haw by congruence.
+        assert (pick (sig_bits id (a_width a)) jj = Ok (id, jj)) as Hpj.
+        { unfold sig_bits. rewrite pick_map. destruct (pick_ok (iota (Z.to_nat (a_width a)) 0 1) jj) as [y [Hy Hny]]; [unfold zlen; rewrite iota_length; lia|].
+          rewrite Hy. rewrite iota_nth in Hny by lia. inversion Hny; subst y. f_equal. f_equal. lia. }
+        rewrite Hpj in Hpk1. inversion Hpk1; subst id1 j1.
+        pose proof (leaves1_new _ _ _ Ht) as Hln. rewrite Hlf1 in Hln. inversion Hln; subst s1.
+        exists o. split; [eapply fresh_not_sig; exact Ht|]. split; [reflexivity|]. split; [exact Hok|].
+        split; [eapply c_trans; [apply c_sym; exact Cg|exact Co]|]. unfold owner_node. rewrite (find_by_name _ _ _ Ht). cbn [fst snd]. rewrite Hka. reflexivity.
+    + (* a no-connect: its private signal stands for the port itself *)
+      right. left. cbn [fst snd] in *. subst e1. rewrite Hw in Hw2. inversion Hw2; subst w2.
+      destruct (tbl_In _ _ _ Ht) as [Hal _]. pose proof (alloc_width_pos a Hal) as Hap.
+      cbn [xbits] in Hb1. destruct (a_width a <? 1) eqn:E; [lia|]. inversion Hb1; subst bits1.
+      cbn [xwidth] in Hcw1. rewrite E in Hcw1. assert (cw = a_width a) as -> by congruence.
+      pose proof Hpk1 as Hpk1'. apply pick_In in Hpk1'. unfold sig_bits in Hpk1'. apply in_map_iff in Hpk1'. destruct Hpk1' as [jx [Ejx _]]. inversion Ejx; subst id1 jx.
+      pose proof (leaves1_new _ _ _ Ht) as Hln. rewrite Hlf1 in Hln. inversion Hln; subst s1.
+      split; [eapply fresh_not_sig; exact Ht|]. unfold owner_node. rewrite (find_by_name _ _ _ Ht). cbn [fst snd]. rewrite Hka, (pr_find x Hx), Hw.
+      (* the index arithmetic *)
+      assert (0 <= conn_index x1 (a_width a) w e k < a_width a) as Hidx.
+      { destruct (conn_bit_some d x1 e port k _ _ w He1a ltac:(cbn [xbits]; rewrite E; reflexivity) Hw1 Hk He1) as [_ Hi]; [rewrite sig_bits_len by lia; exact Hcase1|].
+        rewrite sig_bits_len in Hi by lia. exact Hi. }
+      assert (j1 = conn_index x1 (a_width a) w e k) as ->.
+      { unfold sig_bits in Hpk1. rewrite pick_map in Hpk1. destruct (pick_ok (iota (Z.to_nat (a_width a)) 0 1) (conn_index x1 (a_width a) w e k)) as [y [Hy Hny]]; [unfold zlen; rewrite iota_length; lia|].
+        rewrite Hy in Hpk1. rewrite iota_nth in Hny by lia. inversion Hny; subst y. inversion Hpk1. lia. }
+      unfold conn_index, elem_ok, single in *. rewrite Hwd. destruct (i_n x <=? 0) eqn:Es.
+      * rewrite Z.eqb_refl. f_equal. f_equal. lia.
+      * destruct (w * i_n x =? w) eqn:Ew.
+        -- assert (i_n x = 1) by nia. assert (e = 0) by lia. subst e. f_equal. f_equal; [apply Z.div_small; lia|apply Z.mod_small; lia].
+        -- f_equal. f_equal; [rewrite Z.div_add_l by lia; rewrite Z.div_small by lia; lia|rewrite Z.add_comm, Z.mod_add by lia; apply Z.mod_small; lia].
+    + (* untouched *)
+      left. cbn [snd] in *. subst e1.
+      destruct (conn_bit_some d x e port k cx bits1 w Ea Hb1 Hw Hk He) as [Hcb0 _]; [rewrite Hlen1, Hnn1 in *; exact Hcase1|].
+      rewrite Hlen1 in Hcb0. unfold conn_index in *. unfold local_tgt. rewrite Hcb0, Hpk1. cbn [bind].
+      pose proof (pick_In _ _ _ Hpk1) as Hin. destruct (xbits_inside _ _ Hb1 _ _ Hin) as [wl [Hlv _]]. rewrite leaves_sx_leaves in Hlv.
+      pose proof (pr_leaves_sig x (port, cx) Hx Hc Hrq Hnq) as Hls. rewrite Forall_forall in Hls. destruct (Hls _ Hlv) as [s0 [Hs0 _]]. cbn [fst] in Hs0.
+      rewrite Hs0. cbn [ofopt bind]. pose proof (leaves1_old _ _ Hs0) as Hs1. rewrite Hlf1 in Hs1. inversion Hs1; subst s0. reflexivity.
+  - (* connected to nothing, but referred to: it owns the implicit signal of its group *)
+    destruct (pr_inst x Hx) as [ports' [Hp' [_ [_ Hall]]]]. rewrite Hp in Hp'. inversion Hp'; subst ports'.
+    pose proof (Hall (port, w) (assoc_In _ _ _ Hpw') Ea) as Hpos. cbn [fst] in Hpos.
+    destruct (refs_to_pos_inv _ _ Hpos) as [x' [c' [Hx' [Hc' Hr']]]].
+    assert (In (i_name x, port) (mentioned m)) as Hq by (apply pr_mentioned; eauto).
+    pose proof (pr_ref_target x' c' _ Hx' Hc' Hr') as Hqk. apply (keys_In d km m keys Hwm Hkeys) in Hqk. destruct Hqk as [x2 [w2 [Hf2 [Hs2 _]]]].
+    cbn [fst] in Hf2. rewrite (pr_find x Hx) in Hf2. inversion Hf2; subst x2.
+    destruct (pr_lookup_added x x1 port Hx Hr Hs2 Ea Hq) as [id [a [nm [g [w3 [He1a [Ht [Hka [Hw3 [Haw _]]]]]]]]]].
+    assert (w3 = w) as -> by congruence.
+    assert (e = 0) as -> by (unfold elem_ok, single in *; rewrite Hs2 in He; lia).
+    assert (Forall (leaf_ok m1) (sx_leaves (XSig id (a_width a)))) as Hl1 by (constructor; [eapply leaf_ok_new; exact Ht|constructor]).
+    assert (xwidth (XSig id (a_width a)) = Ok w) as Hcw1 by (cbn [xwidth]; rewrite Haw; destruct (w <? 1) eqn:E; [lia|reflexivity]).
+    destruct (m1_local x1 0 port k w _ He1a Hw1 Hk He1 Hl1 w Hcw1 (or_introl eq_refl)) as [bits1 [id1 [j1 [s1 [Hb1 [Hlen1 [Hpk1 [Hlf1 Hlt1]]]]]]]].
+    exists s1, j1. split; [exact Hlt1|]. right. left.
+    cbn [xbits] in Hb1. rewrite Haw in Hb1. destruct (w <? 1) eqn:E; [lia|]. inversion Hb1; subst bits1.
+    unfold conn_index in Hpk1. rewrite Z.eqb_refl in Hpk1. unfold sig_bits in Hpk1. rewrite pick_map in Hpk1.
+    destruct (pick_ok (iota (Z.to_nat w) 0 1) k) as [y [Hy Hny]]; [unfold zlen; rewrite iota_length; lia|].
+    rewrite Hy in Hpk1. rewrite iota_nth in Hny by lia. inversion Hny; subst y. inversion Hpk1; subst id1 j1.
+    pose proof (leaves1_new _ _ _ Ht) as Hln. rewrite Hlf1 in Hln. inversion Hln; subst s1.
+    split; [eapply fresh_not_sig; exact Ht|]. unfold owner_node. rewrite (find_by_name _ _ _ Ht). cbn [fst snd]. rewrite Hka. cbn [fst snd].
+    f_equal. f_equal. lia.
+Qed.
 End PRModule.
